@@ -110,6 +110,7 @@ theorem arm_inj_valid {t : Tracker} {tx : Tx} {pre : Status} {past future : List
 /-- What the ledger guarantees about every delta it emits (C04's invariants). -/
 structure DeltaOk (bs : Books) (d : Delta) : Prop where
   valid : d.tx.Valid
+  pre : StatusOk d.tx.aff d.pre
   post : StatusOk d.tx.aff d.post
   allNonneg : 0 ≤ d.post.all
   total : ∃ U : List Aff, U.Nodup ∧ (∀ a, a ∉ U → (stepBooks bs d.tx a).shares = 0) ∧
@@ -221,7 +222,7 @@ theorem wfStepSpec : StepSpec WfInv DeltaOk UserErr Tx.Valid where
         have hr' : TrackerRefines t0 (stepBooks bs tx) := by
           apply setLatest_refines hr hs
           rw [hpost]; exact hspec.1
-        refine ⟨htx, ⟨by rw [htx]; exact hv, by rw [htx, hpost]; exact hok, by rw [hpost]; exact hnn, ?_⟩, ⟨hr', _, hw'⟩, ?_⟩
+        refine ⟨htx, ⟨by rw [htx]; exact hv, by rw [htx, hpre]; exact hpok, by rw [htx, hpost]; exact hok, by rw [hpost]; exact hnn, ?_⟩, ⟨hr', _, hw'⟩, ?_⟩
         · refine ⟨_, hw'.nodup, ?_, ?_⟩
           · intro a ha
             have : t0.m a = none := by
